@@ -245,3 +245,228 @@ Proof.
               (lines_ok_firstn _ _ k Hf) Hl ltac:(cbn; lia)) as (s' & Hr & _).
   rewrite <- Hsplit in Hr. exists k, st, l, s'. split; [split; auto|]. rewrite Hr. subst st. reflexivity.
 Qed.
+
+(** ** The multi-file reader: reverse reading across files *)
+
+Definition files (r : reader) : list qfile := map fst (r_files r).
+
+Definition tagged (i : nat) (f : qfile) : list (Z * Z * Z) :=
+  map (fun x : Z * Z => (Z.of_nat i, fst x, snd x)) (rev (spans f 0)).
+
+(** Files i-1, ..., 0 (newest of them first), each read backwards. *)
+Fixpoint all_rev_upto (i : nat) (fs : list qfile) : list (Z * Z * Z) :=
+  match i with O => [] | S i' => tagged i' (nth i' fs []) ++ all_rev_upto i' fs end.
+
+Definition all_rev (fs : list qfile) : list (Z * Z * Z) := all_rev_upto (length fs) fs.
+
+(** The reader is on file [i], with the lines [p] of it still to be returned
+    (and [g] already returned). *)
+Definition rinv (me : Z) (r : reader) (i : nat) (p g : qfile) : Prop :=
+  r_cur r = Z.of_nat i /\
+  (exists s, nth_error (r_files r) i = Some (p ++ g, s) /\ pos s = Z.max 0 (fsize p - 1)) /\
+  Forall (lines_ok me) (files r).
+
+Definition rexp (r : reader) (i : nat) (p : qfile) : list (Z * Z * Z) :=
+  tagged i p ++ all_rev_upto i (files r).
+
+Lemma set_nth_length {A} (l : list A) n x : length (set_nth l n x) = length l.
+Proof. revert n; induction l; intros [|n]; cbn; auto. Qed.
+
+Lemma nth_error_set_nth_same {A} (l : list A) n x y :
+  nth_error l n = Some y -> nth_error (set_nth l n x) n = Some x.
+Proof. revert n; induction l; intros [|n]; cbn; auto; discriminate. Qed.
+
+Lemma nth_error_set_nth_other {A} (l : list A) n m x :
+  n <> m -> nth_error (set_nth l n x) m = nth_error l m.
+Proof. revert n m; induction l; intros [|n] [|m] H; cbn; auto; congruence. Qed.
+
+Lemma map_fst_set_nth {A B} (l : list (A * B)) n a b b0 :
+  nth_error l n = Some (a, b0) -> map fst (set_nth l n (a, b)) = map fst l.
+Proof.
+  revert n; induction l as [|[a' b'] l IH]; intros [|n]; cbn; auto; intro H.
+  - congruence.
+  - f_equal; auto.
+Qed.
+
+Lemma nth_error_Some_length {A} (l : list A) n x : nth_error l n = Some x -> (n < length l)%nat.
+Proof. intro H. apply nth_error_Some. congruence. Qed.
+
+Lemma nth_file_nth_error r i x :
+  nth_error (r_files r) i = Some x -> nth_file r (Z.of_nat i) = x.
+Proof. intro H. unfold nth_file. rewrite Nat2Z.id. apply nth_error_nth; auto. Qed.
+
+Lemma tagged_snoc i (p : qfile) l t :
+  tagged i (p ++ [(l, t)]) = (Z.of_nat i, fsize p, l) :: tagged i p.
+Proof.
+  unfold tagged. rewrite spans_app, rev_app_distr. cbn [spans rev app map fst snd].
+  repeat f_equal; lia.
+Qed.
+
+Lemma files_nth r i f s : nth_error (r_files r) i = Some (f, s) -> nth i (files r) [] = f.
+Proof.
+  intro H. unfold files. apply nth_error_nth. rewrite nth_error_map, H. reflexivity.
+Qed.
+
+(** One ReadNext of the reader: it returns the head of what is expected, or
+    EOF when nothing is expected, and stays in the invariant. *)
+Lemma reader_read_loop_spec me buf : 0 < me <= buf ->
+  forall n r i p g, rinv me r i p g -> (i < n)%nat ->
+  match rexp r i p with
+  | [] => fst (reader_read_loop me buf n r) = None
+  | x :: rest =>
+      exists r' i' p' g', reader_read_loop me buf n r = (Some x, r') /\
+        rinv me r' i' p' g' /\ rexp r' i' p' = rest /\ files r' = files r
+  end.
+Proof.
+  intros Hme. induction n as [|n IH]; intros r i p g (Hc & (s & Hs & Hp) & Hok) Hn; [lia|].
+  cbn [reader_read_loop]. rewrite Hc.
+  destruct (Z.ltb_spec (Z.of_nat i) 0); [lia|].
+  rewrite (nth_file_nth_error _ _ _ Hs).
+  assert (Hf : lines_ok me (p ++ g)).
+  { unfold files in Hok. rewrite Forall_forall in Hok. apply Hok.
+    apply in_map_iff. exists (p ++ g, s). split; auto. eapply nth_error_In; eauto. }
+  apply lines_ok_app in Hf as [Hfp Hfg].
+  destruct p as [|[l t] p'] using rev_ind.
+  - (* nothing left in this file *)
+    cbn [fsize] in Hp. unfold read_next. rewrite Hp. cbn [Z.max Z.eqb app].
+    change (Z.max 0 (0 - 1)) with 0. cbn [Z.eqb].
+    destruct i as [|i'].
+    + cbn. reflexivity.
+    + replace (Z.of_nat (S i') - 1) with (Z.of_nat i') by lia.
+      destruct (Z.ltb_spec (Z.of_nat i') 0); [lia|].
+      destruct (nth_error (r_files r) i') as [[f' s']|] eqn:E'.
+      2:{ apply nth_error_None in E'. apply nth_error_Some_length in Hs. lia. }
+      rewrite (nth_file_nth_error _ _ _ E').
+      set (r2 := {| r_files := _; r_cur := _; r_fellback := _ |}).
+      assert (Hfiles : files r2 = files r).
+      { unfold files, r2, set_state. cbn [r_files]. rewrite Nat2Z.id.
+        rewrite (nth_file_nth_error _ _ _ E'). cbn [fst].
+        eapply map_fst_set_nth; eauto. }
+      assert (Hinv : rinv me r2 i' f' []).
+      { split; [reflexivity|]. split.
+        - exists (seek_start f' s'). split; [|reflexivity].
+          unfold r2, set_state. cbn [r_files]. rewrite Nat2Z.id, app_nil_r.
+          rewrite (nth_file_nth_error _ _ _ E'). cbn [fst].
+          eapply nth_error_set_nth_same; eauto.
+        - rewrite Hfiles; auto. }
+      assert (Hexp : rexp r (S i') [] = rexp r2 i' f').
+      { unfold rexp. rewrite Hfiles. cbn [all_rev_upto tagged spans rev map app].
+        rewrite (files_nth _ _ _ _ E'). reflexivity. }
+      rewrite Hexp.
+      specialize (IH r2 i' f' [] Hinv ltac:(lia)).
+      destruct (rexp r2 i' f') as [|x rest]; auto.
+      destruct IH as (r' & i2 & p2 & g2 & H1 & H2 & H3 & H4).
+      exists r', i2, p2, g2. split; [exact H1|]. split; [exact H2|]. split; [exact H3|]. congruence.
+  - (* a line is left *)
+    clear IHp'. apply lines_ok_app in Hfp as [Hfp' Hl].
+    inversion Hl as [|? ? Hl' _]; subst; cbn [fst] in Hl'.
+    rewrite fsize_app in Hp; cbn [fsize] in Hp.
+    pose proof (fsize_nonneg _ _ Hfp') as Hnn.
+    rewrite <- app_assoc in *; cbn [app] in *.
+    destruct (read_next_step me buf p' l t g s Hme Hfp' Hl' ltac:(lia)) as (s2 & Hr & Hp2).
+    rewrite Hr.
+    unfold rexp. rewrite tagged_snoc. cbn [app].
+    set (r2 := {| r_files := _; r_cur := _; r_fellback := _ |}).
+    assert (Hfiles : files r2 = files r).
+    { unfold files, r2, set_state. cbn [r_files]. rewrite Nat2Z.id.
+      rewrite (nth_file_nth_error _ _ _ Hs). cbn [fst]. eapply map_fst_set_nth; eauto. }
+    exists r2, i, p', ((l, t) :: g). split; [reflexivity|]. split; [|split].
+    + split; [reflexivity|]. split.
+      * exists s2. split.
+        -- unfold r2, set_state. cbn [r_files]. rewrite Nat2Z.id.
+           rewrite (nth_file_nth_error _ _ _ Hs). cbn [fst].
+           eapply nth_error_set_nth_same; eauto.
+        -- rewrite Hp2. destruct (Z.eqb_spec (fsize p') 0); lia.
+      * rewrite Hfiles; auto.
+    + rewrite Hfiles. reflexivity.
+    + exact Hfiles.
+Qed.
+
+Lemma reader_read_all_spec me buf : 0 < me <= buf ->
+  forall fuel r i p g, rinv me r i p g -> (length (rexp r i p) < fuel)%nat ->
+  reader_read_all me buf fuel r = rexp r i p.
+Proof.
+  intros Hme. induction fuel as [|fuel IH]; intros r i p g Hinv Hfuel; [lia|].
+  cbn [reader_read_all].
+  pose proof Hinv as (Hc & (s & Hs & _) & _).
+  pose proof (nth_error_Some_length _ _ _ Hs) as Hlen.
+  pose proof (reader_read_loop_spec me buf Hme (S (length (r_files r))) r i p g Hinv ltac:(lia)) as H.
+  assert (Hrn : reader_read_next me buf r = reader_read_loop me buf (S (length (r_files r))) r).
+  { unfold reader_read_next. destruct (r_files r); [cbn in Hlen; lia|reflexivity]. }
+  rewrite Hrn.
+  destruct (rexp r i p) as [|x rest] eqn:E.
+  - destruct (reader_read_loop _ _ _ r) as [[y|] r']; cbn in H; congruence.
+  - destruct H as (r' & i' & p' & g' & -> & Hinv' & Hexp & _).
+    f_equal. rewrite <- Hexp. eapply IH; eauto. rewrite Hexp. cbn in Hfuel. lia.
+Qed.
+
+(** *** C20_two_files (reading part): from SeekStart the reader returns every
+    line of every file, newest file first, each file backwards, each line
+    once; then EOF. *)
+Definition total_len (fs : list qfile) : nat := fold_right (fun f n => (length f + n)%nat) 0%nat fs.
+
+Lemma total_len_app a b : total_len (a ++ b) = (total_len a + total_len b)%nat.
+Proof. induction a; cbn; auto. unfold total_len in *. cbn. lia. Qed.
+
+Lemma firstn_S_snoc {A} (l : list A) i d :
+  (i < length l)%nat -> firstn (S i) l = firstn i l ++ [nth i l d].
+Proof.
+  revert i; induction l as [|a l IH]; intros [|i] H; cbn in *; try lia; auto.
+  f_equal. apply IH. lia.
+Qed.
+
+Lemma all_rev_upto_length fs : forall i, (i <= length fs)%nat ->
+  length (all_rev_upto i fs) = total_len (firstn i fs).
+Proof.
+  induction i as [|i IH]; intro Hi; [reflexivity|].
+  cbn [all_rev_upto]. rewrite app_length, IH by lia.
+  unfold tagged. rewrite map_length, rev_length, spans_length.
+  rewrite (firstn_S_snoc fs i []) by lia. rewrite total_len_app. cbn. lia.
+Qed.
+
+Lemma all_rev_length fs : length (all_rev fs) = total_len fs.
+Proof. unfold all_rev. rewrite all_rev_upto_length, firstn_all; auto. Qed.
+
+Lemma reader_seek_start_nonempty r : r_files r <> [] ->
+  reader_seek_start r =
+    let i := Z.of_nat (length (r_files r)) - 1 in
+    let (f, s) := nth_file r i in
+    {| r_files := set_state r i (seek_start f s); r_cur := i; r_fellback := r_fellback r |}.
+Proof. unfold reader_seek_start. destruct (r_files r); congruence. Qed.
+
+Theorem reader_reverse_complete me buf (fs : list qfile) :
+  0 < me <= buf -> Forall (lines_ok me) fs ->
+  reader_read_all me buf (S (total_len fs))
+    (reader_seek_start (new_reader fs)) = all_rev fs.
+Proof.
+  intros Hme Hok. destruct fs as [|f0 fs0] eqn:Efs; [reflexivity|]. rewrite <- Efs in *.
+  assert (Hlen : (0 < length fs)%nat) by (subst; cbn; lia).
+  set (i := (length fs - 1)%nat).
+  destruct (nth_error fs i) as [f|] eqn:E; [|apply nth_error_None in E; lia].
+  assert (Hrf : r_files (new_reader fs) = map (fun f => (f, rstate0)) fs) by reflexivity.
+  assert (Hs : nth_error (r_files (new_reader fs)) i = Some (f, rstate0)).
+  { rewrite Hrf, nth_error_map, E. reflexivity. }
+  assert (Hfl : files (new_reader fs) = fs).
+  { unfold files. rewrite Hrf, map_map. cbn. apply map_id. }
+  rewrite reader_seek_start_nonempty by (rewrite Hrf; subst fs; discriminate).
+  cbv zeta.
+  replace (Z.of_nat (length (r_files (new_reader fs))) - 1) with (Z.of_nat i)
+    by (rewrite Hrf, map_length; lia).
+  rewrite (nth_file_nth_error _ _ _ Hs).
+  set (r2 := {| r_files := _; r_cur := _; r_fellback := _ |}).
+  assert (Hfiles : files r2 = fs).
+  { transitivity (files (new_reader fs)); [|exact Hfl].
+    unfold files, r2, set_state. cbn [r_files]. rewrite Nat2Z.id.
+    rewrite (nth_file_nth_error _ _ _ Hs). cbn [fst]. eapply map_fst_set_nth; eauto. }
+  assert (Hinv : rinv me r2 i f []).
+  { split; [reflexivity|]. split.
+    - exists (seek_start f rstate0). split; [|reflexivity].
+      unfold r2, set_state. cbn [r_files]. rewrite Nat2Z.id, app_nil_r.
+      rewrite (nth_file_nth_error _ _ _ Hs). cbn [fst]. eapply nth_error_set_nth_same; eauto.
+    - rewrite Hfiles; auto. }
+  assert (Hexp : rexp r2 i f = all_rev fs).
+  { unfold rexp, all_rev. rewrite Hfiles. replace (length fs) with (S i) by lia.
+    cbn [all_rev_upto]. rewrite (nth_error_nth _ _ _ E). reflexivity. }
+  rewrite <- Hexp. eapply reader_read_all_spec; eauto.
+  rewrite Hexp, all_rev_length. lia.
+Qed.
